@@ -28,7 +28,8 @@ def modified_cholesky(mat: np.ndarray, max_error: float = 1e-6) -> np.ndarray:
     diag = mat.diagonal()
     size = mat.shape[0]
     nchol_max = size
-    chol_vecs = np.zeros((nchol_max, nchol_max))
+    # one spare row: the loop always computes one vector more than it returns
+    chol_vecs = np.zeros((nchol_max + 1, nchol_max))
     # ndiag = 0
     nu = np.argmax(diag)
     delta_max = diag[nu]
@@ -36,7 +37,7 @@ def modified_cholesky(mat: np.ndarray, max_error: float = 1e-6) -> np.ndarray:
     chol_vecs[0] = np.copy(mat[nu]) / delta_max**0.5
 
     nchol = 0
-    while abs(delta_max) > max_error and (nchol + 1) < nchol_max:
+    while abs(delta_max) > max_error and nchol < nchol_max:
         Mapprox += chol_vecs[nchol] * chol_vecs[nchol]
         delta = diag - Mapprox
         nu = np.argmax(np.abs(delta))
